@@ -333,3 +333,343 @@ func c15Scope(c *Ctx) {
 		c.R.Unk(rule, "allocation of the attribute block", "-", "no allocation of S3DBConn found")
 	}
 }
+
+// ---- C15.unassigned-kept: an UPDATE of one connection attribute leaves the other alone -----------------
+
+func init() {
+	register(&Rule{Name: "C15.unassigned-kept", Min: 3, Run: c15UnassignedKept,
+		Doc: "s3db_conn: xColumn leaves columns an UPDATE does not assign unset (NoChange), and xUpdate reads a column's value, and releases the transaction's pinned time, only when that column is assigned"})
+	byProp["C15"] = append(byProp["C15"], "C15.unassigned-kept")
+	byProp["C05"] = append(byProp["C05"], "C15.unassigned-kept")
+	explain["C15"] += " unassigned-kept: 'write_time and deadline apply to exactly the statements issued while they are set' — SQLite hands xUpdate every column; unless xColumn answers 'not assigned' for the others, UPDATE s3db_conn SET deadline=… re-reads the displayed write_time (inside a transaction: the pinned time, cut to seconds) as a user setting that outlives COMMIT. (a) every result ConnCursor.Column sets lies behind the 'assigned' side of ctx.NoChange(); (b) in ConnModule.Update a column's Text()/IsNil() is consulted only behind the 'assigned' side of its NoChange(), and on every successful return the pin flag txFixedWriteTime is cleared exactly when write_time was assigned (cleared when not: the pinned time stays for good; not cleared when assigned: COMMIT wipes the user's write_time)."
+	explain["C05"] += " unassigned-kept (shared with C15): 'all writes of one transaction carry one write time unless the connection sets it explicitly' — setting only the deadline is not setting the time."
+}
+
+type connUpdState struct {
+	asg     [2]int // per column: 0 not asked, 1 assigned, 2 not assigned
+	cleared bool
+	bad     string
+}
+
+func (s connUpdState) Key() string { return fmt.Sprintf("%v/%v/%s", s.asg, s.cleared, s.bad) }
+
+type colAnsState struct {
+	s   int // 0 not asked, 1 not assigned, 2 assigned
+	bad bool
+}
+
+func (s colAnsState) Key() string { return fmt.Sprintf("%d/%v", s.s, s.bad) }
+
+func c15UnassignedKept(c *Ctx) {
+	const rule = "C15.unassigned-kept"
+	col := mustFunc(c, "sqlite", "*ConnCursor", "Column")
+	upd := mustFunc(c, "sqlite", "*ConnModule", "Update")
+	pinF := mustField(c, "sqlite", "S3DBConn", "txFixedWriteTime")
+	if col == nil || upd == nil || pinF == nil {
+		return
+	}
+	// (a) xColumn
+	{
+		name := core.FuncName(col)
+		c.R.SawFunc(name)
+		h := an.THooks{}
+		h.Branch = func(iff *ssa.If, side bool, st0 an.TState) an.TState {
+			st := st0.(colAnsState)
+			cond, neg := an.StripNot(iff.Cond)
+			if cl, ok := cond.(*ssa.Call); ok && calleeLabel(cl) == "NoChange" {
+				noChange := side != neg
+				want := 2
+				if noChange {
+					want = 1
+				}
+				if st.s != 0 && st.s != want {
+					return nil // the same question answered differently: infeasible
+				}
+				st.s = want
+			}
+			return st
+		}
+		h.Instr = func(in ssa.Instruction, st0 an.TState) an.TState {
+			st := st0.(colAnsState)
+			if cl, ok := in.(ssa.CallInstruction); ok && strings.HasPrefix(calleeLabel(cl), "Result") && calleeLabel(cl) != "ResultError" {
+				if st.s != 2 {
+					st.bad = true
+				}
+			}
+			return st
+		}
+		exits := an.WalkTypestate(col, colAnsState{}, h, c.Scope(col))
+		good := len(exits) > 0
+		for _, ex := range exits {
+			if ex.St.(colAnsState).bad {
+				good = false
+			}
+		}
+		c.R.Cond(good, rule, name+": unassigned columns stay unset", c.P.Pos(col.Pos()), "every result is set behind the 'assigned' side of ctx.NoChange()",
+			"xColumn answers with the current value also for columns the UPDATE does not assign: xUpdate then cannot tell 'SET deadline=…' from 'SET deadline=…, write_time=<what is displayed>' — inside a transaction the pinned time (cut to seconds) becomes a write_time that outlives COMMIT")
+	}
+	// (b) xUpdate
+	name := core.FuncName(upd)
+	c.R.SawFunc(name)
+	var valuesParam ssa.Value
+	for _, p := range upd.Params {
+		if _, ok := p.Type().Underlying().(*types.Slice); ok {
+			valuesParam = p
+		}
+	}
+	if valuesParam == nil {
+		c.R.Unk(rule, name+": shape", c.P.Pos(upd.Pos()), "no variadic values parameter")
+		return
+	}
+	colOf := func(v ssa.Value) int {
+		k := -1
+		an.DependsOn(v, func(w ssa.Value) bool {
+			if ia, ok := w.(*ssa.IndexAddr); ok && an.Unwrap(ia.X) == valuesParam {
+				if ck, ok := ia.Index.(*ssa.Const); ok {
+					k = int(ck.Int64())
+				}
+			}
+			return false
+		})
+		return k
+	}
+	recvOf := func(cl ssa.CallInstruction) ssa.Value {
+		cm := cl.Common()
+		if cm.IsInvoke() {
+			return cm.Value
+		}
+		if len(cm.Args) > 0 {
+			return cm.Args[0]
+		}
+		return nil
+	}
+	h := an.THooks{}
+	h.Branch = func(iff *ssa.If, side bool, st0 an.TState) an.TState {
+		st := st0.(connUpdState)
+		cond, neg := an.StripNot(iff.Cond)
+		cl, ok := cond.(*ssa.Call)
+		if !ok || calleeLabel(cl) != "NoChange" {
+			return st
+		}
+		k := colOf(recvOf(cl))
+		if k < 0 || k > 1 {
+			return st
+		}
+		want := 1
+		if side != neg { // NoChange() is true
+			want = 2
+		}
+		if st.asg[k] != 0 && st.asg[k] != want {
+			return nil // the value's flag does not change between two questions
+		}
+		st.asg[k] = want
+		return st
+	}
+	h.Instr = func(in ssa.Instruction, st0 an.TState) an.TState {
+		st := st0.(connUpdState)
+		switch x := in.(type) {
+		case ssa.CallInstruction:
+			l := calleeLabel(x)
+			if l == "Text" || l == "IsNil" || l == "Int64" || l == "Blob" {
+				if k := colOf(recvOf(x)); k >= 0 && k <= 1 && st.asg[k] != 1 {
+					st.bad = fmt.Sprintf("column %d is read with %s() at %s without knowing that it was assigned", k, l, c.P.Pos(x.Pos()))
+				}
+			}
+		case *ssa.Store:
+			if fa, ok := x.Addr.(*ssa.FieldAddr); ok && an.FieldVar(fa.X.Type(), fa.Field) == pinF {
+				if cb, isC := constBool(x.Val); isC && !cb {
+					st.cleared = true
+				}
+			}
+		}
+		return st
+	}
+	exits := an.WalkTypestate(upd, connUpdState{}, h, c.Scope(upd))
+	n := 0
+	readOK, pinOK := true, true
+	readWhy, pinWhy := "", ""
+	for _, ex := range exits {
+		if ex.ErrNil == 0 {
+			continue // an error return: the connection is left as it was (C15.conn)
+		}
+		n++
+		st := ex.St.(connUpdState)
+		if st.bad != "" {
+			readOK = false
+			readWhy = st.bad + ": an unassigned column arrives as NULL/empty and would clear the attribute, or (if xColumn answers) re-install the displayed value as the user's"
+		}
+		switch {
+		case st.asg[1] == 2 && st.cleared:
+			pinOK = false
+			pinWhy = "on a path where write_time is not assigned the transaction's pin is released (return at " + c.P.Pos(ex.Ret.Pos()) + "): the pinned time stays on the connection after COMMIT and stamps every later statement"
+		case st.asg[1] == 1 && !st.cleared:
+			pinOK = false
+			pinWhy = "on a path where write_time is assigned the transaction's pin is not released (return at " + c.P.Pos(ex.Ret.Pos()) + "): COMMIT / ROLLBACK take the user's write_time for the pinned one and wipe it — later statements are stamped 'now' and an old replayed request overrides newer changes"
+		case st.asg[1] == 0:
+			pinOK = false
+			pinWhy = "Update can succeed without asking whether write_time was assigned (return at " + c.P.Pos(ex.Ret.Pos()) + ")"
+		}
+	}
+	if n == 0 {
+		c.R.Unk(rule, name+": shape", c.P.Pos(upd.Pos()), "no successful return found")
+		return
+	}
+	c.R.Cond(readOK, rule, name+": a column is read only when assigned", c.P.Pos(upd.Pos()), "Text()/IsNil() of a column only behind the 'assigned' side of its NoChange()", readWhy)
+	c.R.Cond(pinOK, rule, name+": the pin is released exactly when write_time is assigned", c.P.Pos(upd.Pos()), fmt.Sprintf("%d successful paths", n), pinWhy)
+}
+
+// ---- C15.reinsert-strictly-later: an INSERT over a deleted row is accepted only after the delete ---------
+
+func init() {
+	register(&Rule{Name: "C15.reinsert-strictly-later", Min: 3, Run: c15ReinsertLater,
+		Doc: "decision table of Insert's guard for a key whose row is deleted, over the three orderings of delete time and statement time: accepted iff the delete is strictly earlier"})
+	byProp["C15"] = append(byProp["C15"], "C15.reinsert-strictly-later")
+	explain["C15"] += " reinsert-strictly-later: the times in Insert's guard are touched through comparisons only, so the guard is evaluated for the three orderings of (delete time, statement time) on the paths where the key's row exists and is deleted: delete earlier -> the statement is stored; equal or later -> refused with the key constraint. Equal must refuse: the row merge and the entry-level last-writer-wins both let the incoming row win a tie, so a replayed INSERT carrying the write_time of the DELETE that followed it would bring the row back ('re-executing a statement with the same write_time … leaves the table unchanged'); later must refuse ('an older statement cannot undo a newer change'). The comparison may be written any way that has this table."
+}
+
+type reinsState struct {
+	deleted int // 0 not asked, 1 deleted, 2 live
+	refused bool
+	stored  bool
+}
+
+func (s reinsState) Key() string { return fmt.Sprintf("%d/%v/%v", s.deleted, s.refused, s.stored) }
+
+func c15ReinsertLater(c *Ctx) {
+	const rule = "C15.reinsert-strictly-later"
+	fn := mustFunc(c, "", "*VirtualTable", "Insert")
+	ut := mustFunc(c, "", "", "updateTime")
+	if fn == nil || ut == nil {
+		return
+	}
+	name := core.FuncName(fn)
+	c.R.SawFunc(name)
+	sc := c.Scope(fn)
+	classify := func(v ssa.Value) string {
+		d, t := false, false
+		an.DependsOn(sc.ArgOfParam(v), func(w ssa.Value) bool {
+			if fv := an.FieldOfLoad(w); fv != nil && fv.Name() == "DeleteUpdateOffset" {
+				d = true
+			}
+			if cl, ok := w.(*ssa.Call); ok && cl.Call.StaticCallee() == ut {
+				t = true
+			}
+			return false
+		})
+		switch {
+		case d:
+			return "D"
+		case t:
+			return "T"
+		}
+		return ""
+	}
+	// truth of a time comparison in a world; sign = sign(D - T)
+	cmpTruth := func(cl *ssa.Call, sign int) (bool, bool) {
+		f := cl.Call.StaticCallee()
+		if f == nil || an.PkgPathOf(f) != "time" || len(cl.Call.Args) != 2 {
+			return false, false
+		}
+		a, b := classify(cl.Call.Args[0]), classify(cl.Call.Args[1])
+		var s int // sign(recv - arg)
+		switch {
+		case a == "D" && b == "T":
+			s = sign
+		case a == "T" && b == "D":
+			s = -sign
+		default:
+			return false, false
+		}
+		switch f.Name() {
+		case "Before":
+			return s < 0, true
+		case "After":
+			return s > 0, true
+		case "Equal":
+			return s == 0, true
+		}
+		return false, false
+	}
+	worlds := []struct {
+		label  string
+		sign   int
+		accept bool
+	}{{"delete earlier than the statement", -1, true}, {"delete at the statement's time", 0, false}, {"delete later than the statement", 1, false}}
+	nCmp := 0
+	for _, w := range worlds {
+		h := an.THooks{}
+		h.Branch = func(iff *ssa.If, side bool, st0 an.TState) an.TState {
+			st := st0.(reinsState)
+			cond, neg := an.StripNot(iff.Cond)
+			if cl, ok := cond.(*ssa.Call); ok {
+				if tv, known := cmpTruth(cl, w.sign); known {
+					nCmp++
+					if (side != neg) != tv {
+						return nil
+					}
+					return st
+				}
+			}
+			if fv := an.FieldOfLoad(cond); fv != nil && fv.Name() == "Deleted" {
+				want := 2
+				if side != neg {
+					want = 1
+				}
+				if st.deleted != 0 && st.deleted != want {
+					return nil
+				}
+				st.deleted = want
+			}
+			return st
+		}
+		h.Instr = func(in ssa.Instruction, st0 an.TState) an.TState {
+			st := st0.(reinsState)
+			if cl, ok := in.(ssa.CallInstruction); ok && an.CalleeIs(cl, kvPkg, "DB", "Set") {
+				st.stored = true
+			}
+			return st
+		}
+		exits := an.WalkTypestate(fn, reinsState{}, h, sc)
+		stored, refused, n := false, false, 0
+		for _, ex := range exits {
+			st := ex.St.(reinsState)
+			if st.deleted != 1 {
+				continue
+			}
+			n++
+			if st.stored {
+				stored = true
+			}
+			if !st.stored && ex.ErrNil <= 0 {
+				// an error exit before the store: is it the key constraint?
+				for _, r := range ex.Ret.Results {
+					an.DependsOn(r, func(v ssa.Value) bool {
+						if g, ok := v.(*ssa.Global); ok && g.Name() == "ErrS3DBConstraintPrimaryKey" {
+							refused = true
+						}
+						return false
+					})
+				}
+			}
+		}
+		if n == 0 {
+			c.R.Unk(rule, name+": "+w.label, c.P.Pos(fn.Pos()), "no path on which the existing row is known to be deleted")
+			continue
+		}
+		good := stored == w.accept && refused == !w.accept
+		got := fmt.Sprintf("stored=%v refused-with-key-constraint=%v", stored, refused)
+		why := ""
+		switch {
+		case w.accept:
+			why = "an INSERT later than the row's deletion is not (only) stored: " + got
+		case w.sign == 0:
+			why = "an INSERT carrying exactly the write_time of the row's deletion is accepted (" + got + "): nothing downstream stops it — the row merge and the entry-level last-writer-wins both give a tie to the incoming row — so replaying a request 'INSERT; DELETE' issued at one write_time brings the row back, immediately, later, or on any writer that merged the deletion"
+		default:
+			why = "an INSERT older than the row's deletion is accepted (" + got + ")"
+		}
+		c.R.Cond(good, rule, name+": "+w.label, c.P.Pos(fn.Pos()), got, why)
+	}
+	if nCmp == 0 {
+		c.R.Errorf("C15.reinsert-strictly-later: no comparison between the delete time and the statement time found in Insert")
+	}
+}
